@@ -115,12 +115,12 @@ func checkC14(r *Run) {
 	}
 	// ---- R-C14-2
 	matchM := c.Method("topicFilter", "Match")
-	var invokes []*ssa.Call
-	eachInstr(serve, func(in ssa.Instruction) {
-		if k, ok := in.(*ssa.Call); ok && k.Call.IsInvoke() && k.Call.Method.Name() == "Serve" {
-			invokes = append(invokes, k)
+	var invokes []serveHandover
+	for _, ho := range c.serveHandovers(serve) {
+		if ho.At != nil {
+			invokes = append(invokes, ho)
 		}
-	})
+	}
 	if len(invokes) == 0 {
 		// the loop body may have been extracted into a method of the element: h.serveIfMatch(message)
 		c.checkC14ViaHelper(r2, serve, hF, matchM)
@@ -130,7 +130,8 @@ func checkC14(r *Run) {
 		r2.Bad("(*ServeMux).Serve/invoke", serve.Pos(), "dispatcher has %d handler invocations (want one, inside the loop)", len(invokes))
 		return
 	}
-	inv := invokes[0]
+	inv := invokes[0].At
+	invRecv := c.Resolve(invokes[0].Recv)
 	// element: handler loaded from an element copy / element address of handlers[i]
 	elemIndex := func(v ssa.Value, field string) (ssa.Value, bool) {
 		// v = load of &X.field where X is local copy of handlers[i] or &handlers[i]
@@ -170,7 +171,7 @@ func checkC14(r *Run) {
 		}
 		return ia.Index, true
 	}
-	hIdx, ok := elemIndex(inv.Call.Value, "handler")
+	hIdx, ok := elemIndex(invRecv, "handler")
 	if !ok {
 		r2.Bad("(*ServeMux).Serve/invoke", inv.Pos(), "the handler invoked is not an element of the registered handler list")
 		return
@@ -199,9 +200,9 @@ func checkC14(r *Run) {
 		if DominatedByEdge(serve, inv, b, 0, PathQ{}) {
 			// exact: on the true edge the invoke happens on every path before the next iteration
 			first := b.Succs[0].Instrs[0]
-			if first == ssa.Instruction(inv) {
+			if first == inv {
 				guard = true
-			} else if _, skip := CanReach(serve, first, func(x ssa.Instruction) bool { return realExit(x) || x == ssa.Instruction(k) }, PathQ{BlockInstr: func(x ssa.Instruction) bool { return x == ssa.Instruction(inv) }}); !skip {
+			} else if _, skip := CanReach(serve, first, func(x ssa.Instruction) bool { return realExit(x) || x == ssa.Instruction(k) }, PathQ{BlockInstr: func(x ssa.Instruction) bool { return x == inv }}); !skip {
 				guard = true
 			}
 		}
